@@ -4,4 +4,5 @@
   changed kernel reaches only the properties listed here.
 -/
 import VK.Props.C03Sample
+import VK.Props.C03Random
 import VK.Props.KernelsSTV
